@@ -31,8 +31,13 @@ PROP = dict(
         "escapes, surrogate pairs and the U+FFFD sanitation (goUnquote)",
         "boc.Cell / tlb.Any: the PARSE side is the BOC reader model of C01/C07 (compared on every cell document and its "
         "mutations); the PRINT side is C01's model of the whole Go writer (order of importCell/reorderCells/"
-        "revisit + header arithmetic): json_roundtrip_cell_go_writer, whose premises are KeyInjOn (the writer's "
-        "de-duplication key, the hex hash, identifies the sub-cells: no collision inside the one cell) and the size limits; "
+        "revisit + header arithmetic): json_roundtrip_cell_go_writer is stated for THE order o the writer model returns and "
+        "THE text the printer returns (hypotheses; existence: json_cell_go_writer_succeeds) and concludes that the parser "
+        "returns exactly (o.table, r) with o.roots = [r] and r unfolding to the input tree — built from C01's pieces "
+        "(orderWith_valid, OrderValid.once/sub, C01.roundtrip) in Lemmas/SourceBocPinned.lean; premises: KeyInjOn (the writer's "
+        "de-duplication key, the hex hash, identifies the sub-cells: no collision inside the one cell; NOT dischargeable "
+        "from CollisionFree for cells with pruned branches, where it stays a premise) and the size limit as a condition on "
+        "the INPUT cell (fewer than 2^24 structurally distinct sub-cells); the output length bound is derived; "
         "the printed text itself is compared only through the direct round-trip oracle (the model does not print cells in the "
         "driver). ton.AccountID: C17's byte-level model of its JSON form, theorem json_roundtrip_accountid = C17.json_roundtrip",
         "the MsgAddr values of the model cannot express two states of the Go struct: an AddrVar whose AddrLen differs from "
@@ -64,20 +69,31 @@ PROP = dict(
         "and the Anycast slice expression (explicit panic points shown unreachable), Cell/Any via C07 parse_total "
         "(json_parse_total_cell), envelopes (json_parse_total_envelope); ton.AccountID malformed input: direct oracle only",
         "json_roundtrip_wrapped / json_roundtrip_via_string / json_roundtrip_envelope_known are generic wrapper forms with the "
-        "inner round trip as a hypothesis; concrete instances: json_roundtrip_cell_go_writer, json_roundtrip_accountid, "
-        "json_roundtrip_unknown_body_cell, json_roundtrip_envelope_known_record",
+        "inner round trip as a hypothesis; concrete instances: json_roundtrip_cell_go_writer, json_roundtrip_accountid "
+        "(a re-export of C17.json_roundtrip, nothing of its own), json_roundtrip_unknown_body_cell (on an already ordered "
+        "table, json_roundtrip_cell), json_roundtrip_envelope_known_record",
+        "message-body envelopes with a REGISTERED body type: no theorem about any real registered type — the struct-level "
+        "JSON of the abi body types is not modelled; json_roundtrip_envelope_known_record instantiates the generic form on "
+        "tlb.Anycast as a stand-in record. For real body types the evidence is the direct Go round-trip oracle only",
     ],
     level_text="Theorems for ALL inputs about the model: strconv read-back of %d for every bit size 1..64 with the exact range "
                "behaviour (decimal_roundtrip_unsigned/signed, out-of-range literals rejected), big integers of any size, "
                "hex with length check, ton.Bits256 through the Fscanf model, tl.Int256, Grams, SignedCoins (after the fix; the "
                "shipped ParseUint version is proved to reject every negative), Magic, Maybe[T] (generic in T), Fift-hex bit "
                "strings of any length, MsgAddress for every address of the property's domain (all kinds, any anycast, "
-               "workchain and length; the look-alike exclusion is proved to be exactly the ambiguous case), every printer's "
+               "workchain and length; the look-alike exclusion is exactly the ambiguous case: msgaddress_var_lookalike_all — EVERY "
+               "256-bit variable address in an int8 workchain reads back as a standard address), every printer's "
                "output accepted by the transcribed JSON scanner (json_valid), no parser panics on any input "
-               "(json_parse_total); cells through the whole Go writer and reader of C01 (json_roundtrip_cell_go_writer), AccountID "
-               "(json_roundtrip_accountid = C17), the "
-               "message-body envelopes (json_roundtrip_envelope_empty/unknown/known, json_roundtrip_unknown_body_cell end to "
-               "end), Maybe of a composite record (json_roundtrip_maybe_anycast). The ~170 generated types are tied to the model by the regenerated table (174 decided "
+               "(json_parse_total — by construction for 9 of its 12 conjuncts, see partial; content: Fift suffix index, Anycast "
+               "slice expression, cells, envelopes); cells through the whole Go writer and reader of C01 "
+               "(json_roundtrip_cell_go_writer: for THE order and THE text the writer returns, no chosen witness, no guard, size "
+               "limit as a hypothesis on the input cell; with a regression example that the padded-table proof of the earlier "
+               "statement no longer applies), the "
+               "message-body envelopes: empty and Unknown bodies (json_roundtrip_envelope_empty/unknown, "
+               "json_roundtrip_unknown_body_cell end to end), Maybe of a composite record (json_roundtrip_maybe_anycast). "
+               "NOT theorems of this property in their own right: AccountID (json_roundtrip_accountid re-exports C17) and "
+               "envelopes with a registered body type (json_roundtrip_envelope_known is generic in the body's own JSON, "
+               "instantiated only on tlb.Anycast as a stand-in; no real registered type has a theorem). The ~170 generated types are tied to the model by the regenerated table (174 decided "
                "obligations + generated_*_types_roundtrip quantify over the table). The model is tied to the code by exact "
                "correspondence on ~85k lines per quick run (6.4M lines thorough) and by direct round-trip / validity / "
                "no-panic oracles on the real json.Marshal/json.Unmarshal.",
